@@ -196,15 +196,18 @@ PROPS = {
     },
     "C02": {
         "bridge": RENDER,
-        "extra_modules": ["Convergen.Props.C05", "Convergen.Props.C06", "Convergen.Props.BuilderInv", "Convergen.Props.Cover"],
+        "extra_modules": ["Convergen.Props.BuilderInv", "Convergen.Props.Cover", "Convergen.Props.Rooted"],
         "sweeps": [sweep_runtime(60, 1500), sweep_front("nesting", 120, 3000, cats=["body", "slice"]),
                    sweep_front("scoping", 80, 2000, cats=["body", "slice"])],
         "rule": FRONT_RULE % "nesting/scoping" + RUNTIME_RULE,
-        "explanation": "abstract execution of the statement tree: statements read only the source operands and write pairwise "
-                       "distinct destination paths, so sequential execution equals the parallel assignment read off the text, and "
-                       "every path not under an assigned one keeps its value (frame); direction under :reverse; the nil-nested-"
-                       "pointer panic is a listed finding; Go's semantics of the emitted fragment is validated by executing the "
-                       "generated code, not proved",
+        "explanation": "abstract execution of the statement tree, for every result of structToStruct (all type tables, option sets, "
+                       "depths): running the body equals performing its flattened writes; the write targets are pairwise unrelated members "
+                       "of the destination (builder_writes_unrelated, from the covering theorem), so every assigned member ends up with "
+                       "exactly what its own statement wrote (builder_assigns_source_value), every other member keeps its value "
+                       "(builder_frame), all writes go to members reached from the destination operand (builder_writes_destination) and "
+                       "every right-hand side is rooted in the source operand or an additional argument (Rooted.structToStruct_rooted); "
+                       "the nil-nested-pointer panic is a listed finding; Go's semantics of the emitted fragment is validated by executing "
+                       "the generated code on value variants, not proved",
         "assumptions": ["user-supplied getters, converters, String methods and hooks are side-effect-free and do not panic"],
     },
     "C03": {
@@ -243,10 +246,13 @@ PROPS = {
         "sweeps": [sweep_front("matching", 150, 4000, cats=["body", "slice", "stderr"]),
                    sweep_front("mixed", 60, 2000, cats=["body", "slice", "stderr"])],
         "rule": FRONT_RULE % "matching",
-        "explanation": "castNode returns the candidate itself, its String() only under :stringer, a conversion only under :typecast "
-                       "(castNode_opt_in/sound); candidates of other names are ignored (handler_ignores_other_names); :match none "
-                       "without getters never matches by name; witnesses for the two known deviations (first name match stops "
-                       "the search under :case:off; :match none does not stop the getter pass)",
+        "explanation": "fieldDefault_spec: the default matcher returns `no match` exactly when every candidate (getters under :getter "
+                       "first, then fields; none under :match none) yields nothing, otherwise the statement of the first candidate that "
+                       "yields one; tryCand_some/tryCand_none: a candidate yields a statement iff it is accessible, has the same name under "
+                       "the case rule and castNode accepts it / a slice copy applies / it is a struct pair with content; castNode_cases/"
+                       "castNode_none: the candidate itself when assignable, String() only under :stringer, a conversion only under "
+                       ":typecast; candidates_no_getter: no getter call without :getter; match_none_no_name_match.  The two former "
+                       "deviations (#16, #27) were repaired in reedom/convergen and are kept as regression changes (seeded C04-m3, C04-m4)",
         "assumptions": ["go/types relations are oracle tables (WF of the facts is assumed, not proved)"],
     },
     "C05": {
@@ -256,8 +262,12 @@ PROPS = {
                    sweep_front("imports", 80, 2000, cats=["body", "slice", "stderr"]),
                    sweep_front("mixed", 60, 2000, cats=["body", "slice", "stderr"])],
         "rule": FRONT_RULE % "nesting",
-        "explanation": "every no-match statement carries its positioned warning; only accessible members are visited; the "
-                       "dropped-nested-struct case is exhibited as a witness (finding)",
+        "explanation": "Cover.covered_once: for every result of structToStruct, at every depth, every destination leaf reachable through "
+                       "accessible members lies under exactly one line (on itself or on an enclosing member); marks_reachable: nothing else "
+                       "is mentioned (so unexported members of imported types never are); marks_prefix_free: no member is written twice, "
+                       "no line beneath another; lines_are_marks ties the marks to the rendered left-hand sides; every no-match carries "
+                       "its positioned warning.  Assumption DistinctFields is evaluated by the driver on every input.  The former "
+                       "dropped-nested-struct defect (#14) was repaired in reedom/convergen (seeded C05-m3 is its reverse)",
         "assumptions": ["go/types relations are oracle tables"],
     },
     "C06": {
